@@ -48,6 +48,10 @@ func init() {
 			{"PipelineArrival", zzselftest.PipelineArrival, 1, []string{"returned:01", "returned:10"}},
 			{"Idioms", zzselftest.Idioms, 1, []string{"returned:5oncefull0one0 0"}},
 			{"ErrFirst/ok", func() string { return zzselftest.ErrFirst(false) }, 1, []string{"returned:ok"}},
+			{"LazyGlobal", zzselftest.LazyGlobal, 1, []string{"returned:0 3", "returned:1 3", "returned:2 3", "returned:3 3"}},
+			{"GlobalCounter", zzselftest.GlobalCounter, 1, []string{"returned:1", "returned:2"}},
+			{"CASBeforeBuild", zzselftest.CASBeforeBuild, 1, []string{"returned:0 3", "returned:1 3", "returned:3 3"}},
+			{"AtomicCounter", zzselftest.AtomicCounter, 1, []string{"returned:0 2", "returned:1 2", "returned:2 2"}},
 			{"ErrFirst/fail", func() string { return zzselftest.ErrFirst(true) }, 1, []string{"returned:error: bad record 1"}},
 		}
 		bad := 0
